@@ -236,12 +236,12 @@ theorem NoSig.newValueJson (g : Sig) : ∀ j, NoSig g (Jqawk.newValueJson j)
   | .str s => by unfold Jqawk.newValueJson; exact NoSig.pure g _
   | .arr items => by
     unfold Jqawk.newValueJson
-    exact NoSig.bind (NoSig.newValueItems g items) (fun cells => NoSig.bind (NoSig.getHeap g)
-      (fun h => NoSig.bind (NoSig.setHeap g _) (fun _ => NoSig.pure g _)))
+    exact NoSig.bind (NoSig.newValueItems g items) (fun cells => NoSig.bind (NoSig.allocArrM g _)
+      (fun _ => NoSig.pure g _))
   | .obj members => by
     unfold Jqawk.newValueJson
-    exact NoSig.bind (NoSig.newValueMembers g members) (fun cells => NoSig.bind (NoSig.getHeap g)
-      (fun h => NoSig.bind (NoSig.setHeap g _) (fun _ => NoSig.pure g _)))
+    exact NoSig.bind (NoSig.newValueMembers g members) (fun cells => NoSig.bind (NoSig.allocObjM g _)
+      (fun _ => NoSig.pure g _))
 theorem NoSig.newValueItems (g : Sig) : ∀ js, NoSig g (Jqawk.newValueItems js)
   | [] => by unfold Jqawk.newValueItems; exact NoSig.pure g _
   | j :: js => by
